@@ -523,6 +523,10 @@ class Interp:
             if pc is not None and "int" in pc:
                 w, s = int_type(c["ty"])
                 return W.const(int(pc["int"]), w or 64, s or False)
+            cb = self.prog.bodies.get(c["uneval"])
+            if cb is not None and cb.kind == "const" and not c.get("promoted"):
+                # a generic associated constant: interpret its initialiser under the current const bindings
+                return self.call(c["uneval"], [])
         if c.get("zst") or c["ty"] == "()":
             return ("unit",)
         raise Unknown("constant %s" % c["display"])
@@ -603,6 +607,28 @@ class Interp:
             if isinstance(v, tuple) and v[0] == "ref":
                 v = v[1]
             return ("iter", v)
+        if nt in ("std::iter::Iterator::map",) or nt.endswith("Iterator>::map"):
+            it, clos = args
+            if not (isinstance(it, tuple) and it[0] == "iter"):
+                raise Unknown("map over an unknown iterator")
+            return ("iter", [self.call(clos["__closure"], [("ref", clos_self(clos)), ("ref", x)]) for x in it[1]])
+        if nt in ("std::iter::Iterator::max",) or nt.endswith("Iterator>::max"):
+            it = args[0]
+            if not (isinstance(it, tuple) and it[0] == "iter"):
+                raise Unknown("max over an unknown iterator")
+            if not it[1]:
+                return {"__adt": "Option", "__variant": "None"}
+            acc = it[1][0]
+            for x in it[1][1:]:
+                acc = self.ord_max(x, acc)
+            return {"__adt": "Option", "__variant": "Some", "0": acc}
+        if nt == "std::option::Option::unwrap_or":
+            o = args[0]
+            if isinstance(o, dict) and o.get("__variant") == "Some":
+                return o["0"]
+            if isinstance(o, dict) and o.get("__variant") == "None":
+                return args[1]
+            raise Unknown("unwrap_or of an unknown Option")
         if nt.endswith("Iterator>::fold"):
             it, acc, clos = args
             if not (isinstance(it, tuple) and it[0] == "iter"):
